@@ -216,3 +216,84 @@ package strz
 //@ func Utf16ParseToString
 //@   ensures len(result) <= len(s)
 //@   ensures noBackslash(s) ==> len(result) == len(s) && forall k in 0..len(s): result[k] == s[k]
+
+// ---- rune-aware helpers (C17) ----
+
+//@ func Len
+//@   ensures result == runeCountFrom(s, 0)
+
+//@ func Sub
+//@   wraps
+//@   ensures (start < 0 || length < -1 || len(s) == 0) ==> sameSeq(result, s)
+//@   ensures (start >= 0 && length == 0 && len(s) > 0) ==> len(result) == 0
+//@   ensures (start >= 0 && length == -1 && len(s) > 0) ==> sameSeq(result, s[runeOff(s, 0, start):len(s)]) || (len(result) == 0 && runeOff(s, 0, start) == len(s))
+//@   ensures (start >= 0 && length >= 1 && len(s) > 0) ==> sameSeq(result, s[runeOff(s, 0, start):runeOff(s, 0, start+length)]) || (len(result) == 0 && runeOff(s, 0, start) == len(s))
+//@   loop 1:
+//@     invariant 0 <= i && i <= len(s) && 0 <= count && count <= i
+//@     invariant count <= start ==> begin == -1 && runeOff(s, i, start - count) == runeOff(s, 0, start)
+//@     invariant count > start ==> begin >= 0 && begin < i && begin == runeOff(s, 0, start) && length >= 1 && count <= start + length
+//@     invariant length >= 1 && count <= start + length ==> runeOff(s, i, start + length - count) == runeOff(s, 0, start + length)
+//@     decreases len(s) - i
+
+//@ func UcFirst
+//@   ensures len(result) == len(s)
+//@   ensures len(s) > 0 ==> result[0] == ite(97 <= s[0] && s[0] <= 122, s[0] - 32, s[0])
+//@   ensures forall k in 1..len(s): result[k] == s[k]
+//@ func LcFirst
+//@   ensures len(result) == len(s)
+//@   ensures len(s) > 0 ==> result[0] == ite(65 <= s[0] && s[0] <= 90, s[0] + 32, s[0])
+//@   ensures forall k in 1..len(s): result[k] == s[k]
+
+//@ recspec dispw(c seq, p int, e int, k int) int = ite(k <= 0 || p >= e, 0, ite(u8rune(c, p, e) < 128, 1, 2) + dispw(c, p + u8width(c, p, e), e, k-1))
+
+//@ lemma dispwStep(c seq, p int, e int, k int)
+//@   requires k >= 0
+//@   decreases k
+//@   ensures u8off(c, p, e, k) < e ==> u8off(c, p, e, k+1) == u8off(c, p, e, k) + u8width(c, u8off(c, p, e, k), e)
+//@   ensures u8off(c, p, e, k) < e ==> dispw(c, p, e, k+1) == dispw(c, p, e, k) + ite(u8rune(c, u8off(c, p, e, k), e) < 128, 1, 2)
+//@   ensures u8off(c, p, e, k) >= e ==> u8off(c, p, e, k+1) == u8off(c, p, e, k) && dispw(c, p, e, k+1) == dispw(c, p, e, k)
+//@   ensures p <= u8off(c, p, e, k) && (p <= e ==> u8off(c, p, e, k) <= e)
+
+//@ func SubByDisplay
+//@   uses dispwStep
+//@   ghost k = 0
+//@   ensures len(s) <= length ==> sameSeq(result, s)
+//@   ensures len(s) > length ==> sameSeq(result, s[0:len(result)]) && sbeg(s) + len(result) == u8off(content(s), sbeg(s), send(s), k)
+//@   ensures len(s) > length ==> dispw(content(s), sbeg(s), send(s), k) <= length || k == 0
+//@   ensures len(s) > length && len(result) < len(s) ==> dispw(content(s), sbeg(s), send(s), k+1) > length
+//@   loop 1:
+//@     invariant 0 <= k && 0 <= dpl && (dpl <= length || (k == 0 && dpl == 0))
+//@     invariant sbeg(s) + i == u8off(content(s), sbeg(s), send(s), k)
+//@     invariant dpl == dispw(content(s), sbeg(s), send(s), k)
+//@     decreases len(s) - i
+//@   at loop1.body-end:
+//@     ghost k = k + 1
+
+//@ func Mask
+//@   requires start >= 0 && end >= 0
+//@   ensures (start >= runeCountFrom(str, 0) || end >= runeCountFrom(str, 0) - start) ==> sameSeq(result, str)
+//@   loop 1:
+//@     invariant 0 <= i && i <= len(str) && 0 <= startIndex && startIndex <= i && 0 <= endIndex && endIndex <= i && 0 <= count && count <= i
+//@     decreases len(str) - i
+
+//@ func Rev
+//@   loop 1:
+//@     invariant 0 <= i && i <= j + 1 && j < len(runes) && fresh(runes) && oldUntouched(runes)
+//@     decreases j - i + 1
+
+//@ func RemoveRunes
+//@   loop 1:
+//@     invariant (cap(buf.buf) == 0 || fresh(buf.buf)) && oldUntouched(buf.buf)
+//@     decreases len(s) - i
+
+//@ func SnakeToCamelCase
+//@   loop 1:
+//@     invariant 0 <= i && i <= len(str) && 0 <= start && start <= i
+//@     invariant (cap(buf.buf) == 0 || fresh(buf.buf)) && oldUntouched(buf.buf)
+//@     decreases len(str) - i
+
+//@ func CamelCaseToSnake
+//@   loop 1:
+//@     invariant 0 <= i && i <= len(str) && 0 <= start && start <= i
+//@     invariant (cap(buf.buf) == 0 || fresh(buf.buf)) && oldUntouched(buf.buf)
+//@     decreases len(str) - i
